@@ -261,6 +261,13 @@ class C01(Check):
         for tpl in G.TEMPLATES[-2:] + ([G.TEMPLATES[7]] if ctx.tier_counts == 'thorough' else []):
             for t in G.escaped_punct_sweep(tpl):
                 cases.append({'kind': 'escaped-punct', 'text': t, 'comments': True, 'validate': True, 'fetch': 'none'})
+        # every letter of every name escaped / hex-escaped / in the other case (function names, at-keywords,
+        # property names, units, keywords, pseudo names)
+        ftpls = G.FUNCTION_TEMPLATES if ctx.tier_counts == 'thorough' else G.FUNCTION_TEMPLATES[:2] + [G.FUNCTION_TEMPLATES[2 + ctx.seed % 4]]
+        for tpl in ftpls:
+            for t in G.escaped_letter_sweep(tpl):
+                for va in (True, False):
+                    cases.append({'kind': 'escaped-letter', 'text': t, 'comments': True, 'validate': va, 'fetch': 'none'})
         # bytes with BOM / @charset in several encodings
         for _ in range(ctx.n(300, 6000)):
             t = G.malformed(rng)
